@@ -825,6 +825,9 @@ func (kc *kernelCtx) hooks(b *Block, ts *TypeSpec, recv string, inline map[strin
 				if strings.Contains(err.Error(), "unknown identifier") {
 					x.unsupp(st, "loop contract: %v", err)
 				}
+				if os.Getenv("ROVC_DEBUG") != "" {
+					fmt.Fprintf(os.Stderr, "ITER-ENSURES %s: %v\n", e, err)
+				}
 				g = "false"
 			}
 			out = append(out, g)
